@@ -212,7 +212,10 @@ class VLoop(asyncio.BaseEventLoop):
         asyncio.set_event_loop(None)
 
     def collect_errors(self) -> List[dict]:
-        gc.collect(1)
+        try:
+            gc.collect(1)
+        except RuntimeError:
+            pass
         return list(self.errors)
 
 
